@@ -347,6 +347,7 @@ def corruptions (e : XrefSpec.TEnt) (r : Rng) : List (Bytes × Bool) × Rng :=
      (b.take p ++ [x] ++ b.drop p, false),                            -- one byte too many
      (b.set p x, false),                                              -- one byte altered
      (XrefSpec.encEntry { e with gen := 65536 + g }, false),          -- generation above 65535
+     (XrefSpec.encEntry { e with gen := 65536 }, false), (XrefSpec.encEntry { e with gen := 99999 }, false),
      (b.set 17 (if x == 110 || x == 102 then 120 else x), false),     -- entry type
      (b.take 18 ++ [10, 10], false), (b.take 18 ++ [32, 32], false), (b.take 18 ++ [13, 13], false),
      (b.take 18 ++ [10, 13], false), (b.take 18 ++ [10], false), (b.take 19, false),
